@@ -596,6 +596,100 @@ func init() {
 			return err
 		}
 
+		// ---- HTTPServer: which tracer mux.reload puts into the new instance (leading statements)
+		s = c13Base("tracerNonNilIR_mux")
+		s.Binders, s.BNames = "(sameSpec newOK oldNonNil : Bool)", []string{"sameSpec", "newOK", "oldNonNil"}
+		s.Recv = irTerm{"()", "Mux"}
+		s.LeanTy["Mux"], s.LeanTy["SuperSpec"], s.LeanTy["Mapper"] = "Unit", "Unit", "Unit"
+		s.LeanTy["HSpec"], s.LeanTy["Inst"], s.LeanTy["TSpec"], s.LeanTy["Tracer"] = "Unit", "Unit", "Unit", "Bool"
+		s.Params = []irTerm{{"()", "SuperSpec"}, {"()", "Mapper"}}
+		s.Consts["tracing.NoopTracer"] = irTerm{"true", "Tracer"} // a Tracer is modelled by "is non-nil"
+		s.Fields["Inst.tracer"] = irField{Fmt: "oldNonNil", Ty: "Tracer"}
+		s.Fields["Inst.spec"] = irField{Fmt: "()", Ty: "HSpec"}
+		s.Fields["HSpec.Tracing"] = irField{Fmt: "()", Ty: "TSpec"}
+		s.Funcs["reflect.DeepEqual"] = irCall{Fmt: "sameSpec", Ty: "Bool", NArgs: 2}
+		// tracing.New returns (nil, err) on failure and a non-nil tracer otherwise (fact tracingNewNilOnError)
+		s.Funcs["tracing.New"] = irCall{Fmt: "(newOK, !newOK)", Ty: "Tracer × Error", NArgs: 1}
+		s.Ignore = func(src string, st ast.Stmt) bool {
+			_, isDefer := st.(*ast.DeferStmt)
+			return isDefer || strings.HasPrefix(src, "logger.")
+		}
+		s.Ret = func(v []irTerm) (string, error) { return "tracer", nil }
+		tracerVar := ""
+		s.Hook = func(t *irT, e ast.Expr, env *irEnv) (irTerm, bool, error) {
+			switch x := e.(type) {
+			case *ast.TypeAssertExpr:
+				if x.Type != nil {
+					switch t.r.Src(x.Type) {
+					case "*Spec":
+						return irTerm{"()", "HSpec"}, true, nil
+					case "*muxInstance":
+						return irTerm{"()", "Inst"}, true, nil
+					}
+				}
+			case *ast.BinaryExpr: // <tracer> != nil / == nil
+				if (x.Op == token.NEQ || x.Op == token.EQL) && t.r.Src(x.Y) == "nil" {
+					if a, err := t.tryExpr(x.X, env); err == nil && a.Ty == "Tracer" {
+						if x.Op == token.NEQ {
+							return irTerm{a.S, "Bool"}, true, nil
+						}
+						return irTerm{"(!" + a.S + ")", "Bool"}, true, nil
+					}
+				}
+			}
+			return irTerm{}, false, nil
+		}
+		_ = tracerVar
+		// the statements up to (not including) `inst := &muxInstance{…}`; the result is the local handed to
+		// the instance's `tracer:` field
+		mr, err := r.Func("pkg/object/httpserver/mux.go", "mux", "reload")
+		if err != nil {
+			return err
+		}
+		nlead, tracerField := -1, ""
+		for i, st := range mr.Body.List {
+			if as, ok := st.(*ast.AssignStmt); ok && len(as.Rhs) == 1 && strings.HasPrefix(r.Src(as.Rhs[0]), "&muxInstance{") {
+				nlead = i
+				if ue, ok := as.Rhs[0].(*ast.UnaryExpr); ok {
+					if cl, ok := ue.X.(*ast.CompositeLit); ok {
+						for _, el := range cl.Elts {
+							if kv, ok := el.(*ast.KeyValueExpr); ok && r.Src(kv.Key) == "tracer" {
+								tracerField = r.Src(kv.Value)
+							}
+						}
+					}
+				}
+				break
+			}
+		}
+		if nlead < 1 || tracerField == "" {
+			return fmt.Errorf("mux.reload: instance literal with a tracer field not found")
+		}
+		s.Ret = func(v []irTerm) (string, error) { return irIdent(tracerField), nil }
+		if err := c13EmitPrefix(r, w, "pkg/object/httpserver/mux.go", "mux", "reload", nlead, s,
+			"Result: the tracer stored into the new `muxInstance` is non-nil. `sameSpec` = `reflect.DeepEqual(old tracing spec, new)`,\n"+
+				"`newOK` = `tracing.New` succeeds, `oldNonNil` = the previous instance's tracer is non-nil."); err != nil {
+			return err
+		}
+		// tracing.New: every `return nil, err` / the final return of a fresh &Tracer (pattern fact)
+		tn, err := r.Func("pkg/tracing/tracing.go", "", "New")
+		if err != nil {
+			return err
+		}
+		okPat := true
+		ast.Inspect(tn, func(n ast.Node) bool {
+			if rs, ok := n.(*ast.ReturnStmt); ok && len(rs.Results) == 2 {
+				a, b := r.Src(rs.Results[0]), r.Src(rs.Results[1])
+				if !((a == "nil" && b == "err") || (b == "nil" && a != "nil")) {
+					okPat = false
+				}
+			}
+			return true
+		})
+		w.Line("/-- `tracing.New`: every return is `nil, err` or `<non-nil tracer>, nil` -/")
+		w.Line("def tracingNewNilOnError : Bool := %s", Bool(okPat))
+		w.Line("")
+
 		// ---- MQTTProxy
 		const mq = "pkg/object/mqttproxy/broker.go"
 		fd, err = r.Func(mq, "", "getPipelineMap")
